@@ -2,6 +2,8 @@ package main
 
 import (
 	"fmt"
+	"go/ast"
+	"go/constant"
 	"go/types"
 	"sort"
 	"strings"
@@ -306,6 +308,9 @@ func (a *analysis) result() *result {
 		for to := range acq[pe.callee] {
 			for _, from := range pe.may {
 				a.edge(from, to, pe.pos+" via "+a.chain(pe.callee, to))
+				for _, g := range a.acquirers(pe.callee, to) {
+					a.edgeInst(from, to, pe.holder, g, pe.pos+" via "+a.chain(pe.callee, to))
+				}
 			}
 		}
 	}
@@ -315,12 +320,32 @@ func (a *analysis) result() *result {
 		if len(e.Pos) > 6 {
 			e.Pos = e.Pos[:6]
 		}
+		for ik, ipos := range a.edgeInsts[k] {
+			e.Instances = append(e.Instances, edgeInstOut{Holder: ik[0], Acquirer: ik[1], Pos: ipos})
+		}
+		sort.Slice(e.Instances, func(i, j int) bool {
+			return e.Instances[i].Holder+e.Instances[i].Acquirer < e.Instances[j].Holder+e.Instances[j].Acquirer
+		})
 		isKnown := false
 		for j, ke := range a.cfg.KnownEdges {
 			if ke.From == res.Locks[e.From].Name && ke.To == res.Locks[e.To].Name {
-				e.Known = ke.Finding
 				usedKE[j] = true
-				isKnown = true
+				// known only if every instance of the edge is a listed one
+				all := true
+				for _, in := range e.Instances {
+					listed := false
+					for _, ki := range ke.Instances {
+						listed = listed || (ki.Holder == in.Holder && ki.Acquirer == in.Acquirer)
+					}
+					if !listed {
+						all = false
+						e.Unlisted = append(e.Unlisted, in)
+					}
+				}
+				if all {
+					e.Known = ke.Finding
+					isKnown = true
+				}
 			}
 		}
 		if isKnown {
@@ -443,6 +468,8 @@ func (a *analysis) result() *result {
 	res.Summary.GatedAcqRows = len(res.Acqs)
 	res.Summary.ExemptAcqs = len(res.ExemptAcqs)
 	res.Summary.StaleKnown = len(res.StaleKnown)
+
+	a.channelOps(res, remap)
 
 	for f, es := range a.entry {
 		if len(es.locks) == 0 || a.funcs[f] == nil {
@@ -714,4 +741,259 @@ func findCycle(n int, edges, known []edgeOut) []int {
 	}
 
 	return nil
+}
+
+// acquirers lists the functions reachable from f (f included) that acquire
+// class directly.
+func (a *analysis) acquirers(f *types.Func, class int) (res []string) {
+	seen := map[*types.Func]bool{f: true}
+	queue := []*types.Func{f}
+	for len(queue) > 0 {
+		g := queue[0]
+		queue = queue[1:]
+		if a.direct[g][class] {
+			res = append(res, funcName(g))
+		}
+		for h := range a.callG[g] {
+			if !seen[h] {
+				seen[h] = true
+				queue = append(queue, h)
+			}
+		}
+	}
+	sort.Strings(res)
+
+	return res
+}
+
+// chanCaps finds the capacity every channel-typed struct field is made with
+// (-1: not a single constant capacity).
+func (a *analysis) chanCaps() map[types.Object]int {
+	caps := map[types.Object]int{}
+	note := func(obj types.Object, mk ast.Expr, info *types.Info) {
+		call, ok := ast.Unparen(mk).(*ast.CallExpr)
+		if !ok {
+			return
+		}
+		id, ok := call.Fun.(*ast.Ident)
+		if !ok || id.Name != "make" || len(call.Args) == 0 {
+			return
+		}
+		if tv, ok := info.Types[call.Args[0]]; !ok || tv.Type == nil {
+			return
+		} else if _, isChan := types.Unalias(tv.Type).Underlying().(*types.Chan); !isChan {
+			return
+		}
+		n := 0
+		if len(call.Args) > 1 {
+			n = -1
+			if tv, ok := info.Types[call.Args[1]]; ok && tv.Value != nil {
+				if v, exact := constant.Int64Val(tv.Value); exact {
+					n = int(v)
+				}
+			}
+		}
+		if old, seen := caps[obj]; seen && old != n {
+			n = -1
+		}
+		caps[obj] = n
+	}
+	for _, p := range a.pkgs {
+		for _, f := range p.Syntax {
+			ast.Inspect(f, func(nd ast.Node) bool {
+				switch nd := nd.(type) {
+				case *ast.AssignStmt:
+					if len(nd.Lhs) == len(nd.Rhs) {
+						for i, l := range nd.Lhs {
+							if sel, ok := ast.Unparen(l).(*ast.SelectorExpr); ok {
+								if s := p.TypesInfo.Selections[sel]; s != nil && s.Kind() == types.FieldVal {
+									note(s.Obj(), nd.Rhs[i], p.TypesInfo)
+								}
+							}
+						}
+					}
+				case *ast.KeyValueExpr:
+					if id, ok := nd.Key.(*ast.Ident); ok {
+						if obj, ok := p.TypesInfo.Uses[id].(*types.Var); ok && obj.IsField() {
+							note(obj, nd.Value, p.TypesInfo)
+						}
+					}
+				}
+
+				return true
+			})
+		}
+	}
+
+	return caps
+}
+
+// channelOps lists the potentially blocking channel operations made while a
+// lock is held (by the function itself or by some caller) and confronts them
+// with the reviewed table of guards.json.
+func (a *analysis) channelOps(res *result, remap map[int]int) {
+	// lock classes that MAY be held on entry, through some call chain
+	mayEntry := map[*types.Func]map[int]bool{}
+	for changed := true; changed; {
+		changed = false
+		for _, s := range a.sites {
+			if s.isGo || s.mayCls == nil {
+				continue
+			}
+			add := func(k int) {
+				if mayEntry[s.callee] == nil {
+					mayEntry[s.callee] = map[int]bool{}
+				}
+				if !mayEntry[s.callee][k] {
+					mayEntry[s.callee][k] = true
+					changed = true
+				}
+			}
+			for k := range s.mayCls {
+				add(k)
+			}
+			if !s.caller.detached && s.caller.fi != nil {
+				for k := range mayEntry[s.caller.fi.obj] {
+					add(k)
+				}
+			}
+		}
+	}
+	caps := a.chanCaps()
+	type key struct{ fn, ch, op string }
+	rows := map[key]*chanOpOut{}
+	for _, st := range a.chanOps {
+		if st.init {
+			continue
+		}
+		held := map[int]bool{}
+		for k := range st.held {
+			held[k] = true
+		}
+		if !st.detached && st.fobj != nil {
+			for k := range mayEntry[st.fobj] {
+				held[k] = true
+			}
+		}
+		if len(held) == 0 {
+			continue
+		}
+		k := key{st.fn, st.ch, st.op}
+		r := rows[k]
+		if r == nil {
+			r = &chanOpOut{Func: st.fn, Chan: st.ch, Op: st.op, Cap: -2}
+			if st.chObj != nil {
+				if n, ok := caps[st.chObj]; ok {
+					r.Cap = n
+				}
+			}
+			r.drainedAll = true
+			rows[k] = r
+		}
+		r.Pos = append(r.Pos, st.pos)
+		for h := range held {
+			r.Held = append(r.Held, remap[h])
+		}
+		// the structural fact must hold at EVERY occurrence
+		if r.drainedAll {
+			if len(r.Pos) == 1 {
+				r.DrainedUnder = append([]string(nil), st.drained...)
+			} else {
+				var keep []string
+				for _, d := range r.DrainedUnder {
+					for _, e := range st.drained {
+						if d == e {
+							keep = append(keep, d)
+						}
+					}
+				}
+				r.DrainedUnder = keep
+			}
+		}
+	}
+	used := make([]bool, len(a.cfg.ChannelOps))
+	for _, r := range rows {
+		r.Held = sortedUniq(r.Held)
+		sort.Strings(r.Pos)
+		r.Pos = uniq(r.Pos)
+		for j, co := range a.cfg.ChannelOps {
+			if co.Func != r.Func || co.Chan != r.Chan || co.Op != r.Op {
+				continue
+			}
+			used[j] = true
+			r.Justification = co.Justification
+			switch co.Justification {
+			case "drained_under":
+				okDrain := false
+				for _, d := range r.DrainedUnder {
+					okDrain = okDrain || d == co.Lock
+				}
+				switch {
+				case r.Op != "send":
+					r.Why = "drained_under only justifies a send"
+				case r.Cap != co.Cap || co.Cap < 1:
+					r.Why = fmt.Sprintf("the channel is made with capacity %d, the table says %d", r.Cap, co.Cap)
+				case !okDrain:
+					r.Why = "the send is not preceded, inside the same hold of " + co.Lock + " taken in this function, by a loop draining the channel"
+				default:
+					r.Justified = true
+				}
+			case "reviewed":
+				if co.Cap != 0 && r.Cap != co.Cap {
+					r.Why = fmt.Sprintf("the channel is made with capacity %d, the table says %d", r.Cap, co.Cap)
+				} else {
+					r.Justified = true
+				}
+			default:
+				r.Why = "unknown justification " + co.Justification
+			}
+		}
+		if r.Justification == "" {
+			r.Why = "not in the reviewed channel_ops table of guards.json"
+		}
+		res.ChanOps = append(res.ChanOps, *r)
+	}
+	// every send on a channel justified by draining must itself be justified that way
+	for j, co := range a.cfg.ChannelOps {
+		if !used[j] {
+			res.StaleKnown = append(res.StaleKnown, fmt.Sprintf("channel op %s %s %s", co.Func, co.Op, co.Chan))
+		}
+	}
+	sort.Slice(res.ChanOps, func(i, j int) bool {
+		x, y := res.ChanOps[i], res.ChanOps[j]
+
+		return x.Func+x.Chan+x.Op < y.Func+y.Chan+y.Op
+	})
+	chanID := map[string]int{}
+	for i := range res.ChanOps {
+		r := &res.ChanOps[i]
+		r.Site = i
+		if _, ok := chanID[r.Chan]; !ok {
+			chanID[r.Chan] = len(chanID)
+		}
+		r.ChanID = chanID[r.Chan]
+		if !r.Justified {
+			res.Summary.UnjustifiedChanOps++
+		}
+	}
+	res.Summary.ChanOpsUnderLock = len(res.ChanOps)
+	// sends on a drained channel made with NO lock held at all are not rows; check them too
+	for _, co := range a.cfg.ChannelOps {
+		if co.Justification != "drained_under" {
+			continue
+		}
+		for _, st := range a.chanOps {
+			if st.op == "send" && st.ch == co.Chan && !st.init {
+				found := false
+				for _, r := range res.ChanOps {
+					found = found || (r.Func == st.fn && r.Chan == st.ch && r.Op == "send")
+				}
+				if !found {
+					res.ChanOps = append(res.ChanOps, chanOpOut{Site: len(res.ChanOps), Func: st.fn, Chan: st.ch, Op: "send", Pos: []string{st.pos},
+						Why: "a send on a channel whose other sends rely on draining under " + co.Lock + " is made without it", ChanID: chanID[st.ch]})
+					res.Summary.UnjustifiedChanOps++
+				}
+			}
+		}
+	}
 }
